@@ -50,6 +50,10 @@ pub fn engines(with_cc: bool) -> Vec<(String, Config)> {
     v
 }
 
+/// Reductions are expensive (each step re-simulates); after this many the remaining
+/// mismatches of a run are only counted.
+static REDUCTIONS_LEFT: std::sync::atomic::AtomicI64 = std::sync::atomic::AtomicI64::new(i64::MAX);
+
 fn engine_family(name: &str) -> String {
     let base = if name.starts_with("interp") {
         "interp"
@@ -239,6 +243,7 @@ pub struct CaseOut {
     pub tags: Vec<String>,
     pub widths_over_64: u64,
     pub widths_over_128: u64,
+    pub not_reduced: u64,
     /// (signature, what, replay)
     pub bad: Vec<(String, String, Json)>,
 }
@@ -448,6 +453,10 @@ pub fn run_design(d: &OpDesign, stim: &Stimulus, envs: &[Vec<Bv>], with_cc: bool
         if !done_outputs.insert(*oi) || out.bad.len() >= 4 {
             continue;
         }
+        if REDUCTIONS_LEFT.fetch_sub(1, std::sync::atomic::Ordering::Relaxed) <= 0 {
+            out.not_reduced += 1;
+            continue;
+        }
         let o = &d.outs[*oi];
         let env = &envs[*c];
         let who = engine_scope(&list.iter().map(|x| x.0.clone()).collect::<Vec<_>>(), out.engines_run.len());
@@ -574,6 +583,7 @@ pub fn main(args: Args) {
         run.finish(&[]);
     }
 
+    REDUCTIONS_LEFT.store(args.budget("max_reductions", 300, 1500) as i64, std::sync::atomic::Ordering::Relaxed);
     let n = args.budget("designs", 100, 17_000);
     let run2 = run.clone();
     par_cases(n, args.jobs, STACK_64M, move |i| run_case(seed, i, n_outs, sets, cc_ok && i % cc_every == 0, comptime_sets), move |i, r| report(&run2, i, r));
@@ -617,6 +627,7 @@ fn report(run: &Run, i: u64, r: Result<CaseOut, vcommon::pool::PanicInfo>) {
             run.count("comptime_values_compared", o.comptime_compared as i64);
             run.count("outputs_wider_than_64", o.widths_over_64 as i64);
             run.count("outputs_wider_than_128", o.widths_over_128 as i64);
+            run.count("mismatching_outputs_beyond_max_reductions_counted_only", o.not_reduced as i64);
             for e in &o.engines_run {
                 run.seen("engines", e);
             }
